@@ -362,7 +362,12 @@ impl BuiltInFunction {
                     unreachable!()
                 };
 
-                {
+                if gc::Gc::ptr_eq(&v_original_shared.0, &v_add.0) {
+                    // joining a list with itself (or an alias of it): append a copy of its contents.
+                    let mut v_original = v_original_shared.0.borrow_mut();
+                    let copy = v_original.clone();
+                    v_original.extend(copy);
+                } else {
                     let mut v_original = v_original_shared.0.borrow_mut();
                     let mut v_add = v_add.0.borrow_mut();
 
